@@ -53,6 +53,14 @@ func oracleUnwind(c mrun.Case, ctx *pbt.Ctx) error {
 	if _, _, err := mrun.Compare(wDefault, c, ctx, sb.Cfg{}); err != nil {
 		return err
 	}
+	if ctx.Replay {
+		// the recorded finding deep-caught-throw-corrupts-frames is intermittent: a replay gets three more tries
+		for i := 0; i < 3; i++ {
+			if _, _, err := mrun.Compare(wDefault, c, ctx, sb.Cfg{}); err != nil {
+				return err
+			}
+		}
+	}
 	ev := c.Events
 	if ev["unwound_upvalue_access"] > 0 {
 		ctx.Label("unwound_upvalue_access")
